@@ -38,6 +38,16 @@ func KeysOf(steps []Step) []string {
 	return out
 }
 
+// WellFormed mirrors OxiaDb.tla!WellFormed (the leader's validation of Write/WriteBlock).
+func WellFormed(r *Req) bool {
+	for _, p := range r.Puts {
+		if len(p.Deltas) > 0 && (!p.Pkey || p.Deltas[0] == 0) {
+			return false
+		}
+	}
+	return true
+}
+
 func isCreateSession(e Engine, r *Req) bool {
 	if _, ok := e.(*LeaderEngine); !ok {
 		return false
@@ -76,6 +86,13 @@ func Exec(e Engine, st *Step, probeKeys []string) (problems []string) {
 			}
 			r := RecFromGet(st.Req.Puts[0].Key.S(), g, e.TsMap())
 			st.Res.Puts = []PutRes{{St: "OK", Key: Key{}, Ver: r.Ver, Mod: r.Mod, Cts: r.Cts, Mts: r.Mts, Sess: r.Sess, Cid: r.Cid}}
+			break
+		}
+		if _, bare := e.(*DBEngine); bare && !WellFormed(&st.Req) {
+			// A bare kv.DB has no leader in front of it: what the leader refuses before logging never
+			// reaches the state machine.  (TLC cross-checks this filter: it only accepts a REJECTED
+			// line for a request that is not WellFormed in OxiaDb.tla.)
+			st.Err, st.Off = "REJECTED", -1
 			break
 		}
 		off, res, err := e.Write(st.Req.Proto(), st.Ts)
